@@ -118,6 +118,8 @@ pub struct Incarnation {
     pub ready: Arc<AtomicBool>,
     pub started_at_ms: u64,
     pub is_learner_cfg: bool,
+    /// set once `Raft::run` has been entered (a learner first has to join)
+    pub running: Arc<AtomicBool>,
 }
 
 pub struct SimNode {
@@ -182,9 +184,10 @@ impl SimNode {
         let node = incarnation.node.clone();
         let ready = incarnation.ready.clone();
         let is_learner = incarnation.is_learner_cfg;
+        let running = incarnation.running.clone();
         let main = tokio::verif::with_group(group, || {
             tokio::spawn(async move {
-                node_main(node, ready, is_learner).await;
+                node_main(node, ready, is_learner, running).await;
             })
         });
         incarnation.main = Some(main);
@@ -237,7 +240,7 @@ impl SimNode {
     }
 }
 
-async fn node_main(node: Arc<Node<MemT>>, ready: Arc<AtomicBool>, is_learner: bool) {
+async fn node_main(node: Arc<Node<MemT>>, ready: Arc<AtomicBool>, is_learner: bool, running: Arc<AtomicBool>) {
     hv::node_set_rpc_ready(&node, true);
     ready.store(true, Ordering::SeqCst);
     let core = hv::node_raft_core(&node);
@@ -252,7 +255,9 @@ async fn node_main(node: Arc<Node<MemT>>, ready: Arc<AtomicBool>, is_learner: bo
             }
         }
     }
+    running.store(true, Ordering::SeqCst);
     let _ = raft.run().await;
+    running.store(false, Ordering::SeqCst);
 }
 
 #[allow(clippy::too_many_arguments)]
@@ -492,5 +497,6 @@ async fn build(
         ready,
         started_at_ms: crate::seams::vnow_ms(),
         is_learner_cfg,
+        running: Arc::new(AtomicBool::new(false)),
     }
 }
